@@ -31,7 +31,7 @@ def _ids(shards):
     return n
 
 
-def proof_phase(mod, report):
+def proof_phase(mod, report, tier="quick"):
     """returns list of broken-obligation descriptions (empty = all discharged)"""
     broken = []
     with core.BuildLock():
@@ -75,6 +75,16 @@ def proof_phase(mod, report):
                     elif set(a) - core.ALLOWED_AXIOMS:
                         broken.append("audit: theorem %s depends on disallowed axioms %s" % (n, sorted(set(a) - core.ALLOWED_AXIOMS)))
         report["axioms"] = ax_all
+        if tier == "thorough":
+            # independent re-check of the compiled property modules (and everything they import) by leanchecker
+            rc_all = {}
+            for pm in mod.PROPS:
+                if built.get(pm):
+                    rc, out = core.sh(["lake", "env", "leanchecker", "CocaVerif.Props." + pm], cwd=core.LEAN, timeout=3600)
+                    rc_all[pm] = rc == 0
+                    if rc != 0:
+                        broken.append("leanchecker rejects CocaVerif.Props.%s: %s" % (pm, out[-600:]))
+            report["leanchecker"] = rc_all
         hits = core.grep_forbidden()
         if hits:
             broken.append("forbidden constructs in Lean sources: " + "; ".join(hits[:5]))
@@ -89,7 +99,7 @@ def run(mod, tier, seed, replay=None):
     t0 = time.time()
     prop = mod.PROP
     report = {}
-    broken, fatal = proof_phase(mod, report)
+    broken, fatal = proof_phase(mod, report, tier)
     if broken and hasattr(mod, "diagnose"):
         try:
             broken += mod.diagnose(report)
@@ -102,6 +112,7 @@ def run(mod, tier, seed, replay=None):
     samples = []
     distinct = set()
     corr_breaks = []
+    dist = {"ops": {}, "case_size": {}, "features": {}}
     # the model does not build: the search for a failing input still runs, implementation against the statement-level oracle
     nomodel = fatal == "nomodel" and not hasattr(mod, "run_shards")
     if nomodel:
@@ -132,6 +143,16 @@ def run(mod, tier, seed, replay=None):
         for si, sh in enumerate(shards):
             for ci, c in enumerate(sh):
                 stats["evaluations"] += 1
+                dist["ops"][c.get("op", "?")] = dist["ops"].get(c.get("op", "?"), 0) + 1
+                sz = len(json.dumps(c))
+                bucket = "<300B" if sz < 300 else "<1KB" if sz < 1000 else "<3KB" if sz < 3000 else "<10KB" if sz < 10000 else ">=10KB"
+                dist["case_size"][bucket] = dist["case_size"].get(bucket, 0) + 1
+                if hasattr(mod, "features"):
+                    try:
+                        for ft in mod.features(c):
+                            dist["features"][ft] = dist["features"].get(ft, 0) + 1
+                    except Exception:
+                        pass
                 ri = impl.get(c["id"])
                 rm = model.get(c["id"])
                 io = None if ri is None else (ri.get("out") if "panic" not in ri else {"panic": ri.get("site", "?")})
@@ -214,11 +235,11 @@ def run(mod, tier, seed, replay=None):
             "trusted_base": ["Lean 4 kernel", "axioms ⊆ {propext, Classical.choice, Quot.sound}",
                              "translator harness/cmd/extract (regenerated Gen/*.lean)",
                              "correspondence harness (Go) + vlib comparison"] + list(getattr(mod, "TRUSTED", [])),
-            "theorems": report.get("theorems", []), "axioms": report.get("axioms", {}),
+            "theorems": report.get("theorems", []), "axioms": report.get("axioms", {}), "leanchecker": report.get("leanchecker"),
             "broken_obligations": broken,
             "regenerated_facts": report.get("extract", {}),
             "evaluations": stats["evaluations"], "distinct_nontrivial": len(distinct),
-            "rule": getattr(mod, "RULE", ""), "samples": samples,
+            "rule": getattr(mod, "RULE", ""), "samples": samples, "input_distribution": dist,
             "correspondence_mismatches": stats["mismatches"], "impl_panics": stats["panics"],
             "known_findings_seen": known_seen,
             "explanation": getattr(mod, "EXPLANATION", ""),
